@@ -1,8 +1,8 @@
 #!/usr/bin/env python3
-"""resolve 'both sides appended' conflicts by keeping both sides (ours first)"""
+"""resolve 'both sides appended' conflicts by keeping both sides (ours first); works on git's default conflict markers"""
 import sys, re
 for p in sys.argv[1:]:
     s = open(p).read()
-    out = re.sub(r"<<<<<<< ours\n(.*?)=======\n(.*?)>>>>>>> theirs\n", lambda m: m.group(1) + m.group(2), s, flags=re.S)
+    out = re.sub(r"<<<<<<< [^\n]*\n(.*?)(?:\|\|\|\|\|\|\| [^\n]*\n.*?)?=======\n(.*?)>>>>>>> [^\n]*\n", lambda m: m.group(1) + m.group(2), s, flags=re.S)
     open(p, "w").write(out)
     print(p, "resolved" if out != s else "unchanged")
